@@ -6,7 +6,7 @@ use super::common::*;
 use crate::source::{Address, AddressPath, Source, WebsocketPath};
 use rs1090::decode::cpr::Position;
 use serde_json::{json, Value};
-use std::collections::BTreeMap;
+use std::collections::{BTreeMap, BTreeSet};
 use std::str::FromStr;
 
 const SCHEMES: [&str; 9] = ["", "tcp://", "udp://", "ws://", "rtlsdr:", "rtlsdr://", "http://", "TCP://", "wss://"];
@@ -435,6 +435,43 @@ pub fn run(ctx: &Ctx, rep: &Report) {
         }
     });
     pos_cases += sel.len() as u64;
+    // the table itself is an input of the parser: against the coordinates frozen from the pinned tree
+    // (data/airports_pinned.json), a code must still designate the same place. A refresh may move an airport by a few
+    // hundred metres; a quarter of a degree (about 25 km) is another place - swapped coordinates, a wrong record.
+    match std::env::var("VERIF_HOME").ok().and_then(|h| std::fs::read_to_string(format!("{h}/data/airports_pinned.json")).ok()).and_then(|t| serde_json::from_str::<Value>(&t).ok()) {
+        None => rep.warn("data/airports_pinned.json could not be read (VERIF_HOME unset?): airport coordinates were only checked against the table itself".to_string()),
+        Some(pinned) => {
+            let recs = pinned["records"].as_array().cloned().unwrap_or_default();
+            let known: BTreeSet<&str> = apts.iter().flat_map(|a| [a.icao.as_str(), a.iata.as_str()]).collect();
+            let mut n = 0u64;
+            let mut gone = 0u64;
+            let mut o2 = BTreeMap::new();
+            for r in &recs {
+                let (lat, lon) = (r[2].as_f64().unwrap_or(f64::NAN), r[3].as_f64().unwrap_or(f64::NAN));
+                for (kind, code) in [("icao", r[0].as_str().unwrap_or("")), ("iata", r[1].as_str().unwrap_or(""))] {
+                    if code.is_empty() || !code.chars().all(|c| c.is_ascii_alphanumeric()) {
+                        continue;
+                    }
+                    if !known.contains(code) {
+                        gone += 1;
+                        continue;
+                    }
+                    n += 1;
+                    if let Some(Ok(p)) = parse_position(code, rep, &mut o2) {
+                        if (p.latitude - lat).abs() > 0.25 || (p.longitude - lon).abs() > 0.25 {
+                            rep.violation(
+                                &format!("airport-code:{kind}:moved"),
+                                format!("reference {code:?} gives ({}, {}); on the pinned tree this {kind} code designates the airport at ({lat}, {lon})", p.latitude, p.longitude),
+                                json!({"kind": "airport-pinned", "code": code, "lat": lat, "lon": lon}),
+                            );
+                        }
+                    }
+                }
+            }
+            pos_cases += n;
+            rep.note("airports_pinned", json!({"codes_checked": n, "codes_no_longer_in_table": gone}));
+        }
+    }
     rep.part("reference strings", pos_cases, json!({"airport_codes": sel.len(), "airports_in_file": apts.len()}));
     total += pos_cases;
     // (d) well-formed specifications: endpoint, reference, serial across forms
@@ -508,6 +545,16 @@ pub fn replay(w: &Value, rep: &Report) {
     match kind {
         "position" => {
             parse_position(&spec, rep, &mut o);
+        }
+        "airport-pinned" => {
+            let code = w["code"].as_str().unwrap_or("");
+            let (lat, lon) = (w["lat"].as_f64().unwrap_or(f64::NAN), w["lon"].as_f64().unwrap_or(f64::NAN));
+            let mut o = BTreeMap::new();
+            if let Some(Ok(p)) = parse_position(code, rep, &mut o) {
+                if (p.latitude - lat).abs() > 0.25 || (p.longitude - lon).abs() > 0.25 {
+                    rep.violation("airport-code:moved:replay", format!("reference {code:?} gives ({}, {}), pinned ({lat}, {lon})", p.latitude, p.longitude), w.clone());
+                }
+            }
         }
         "airport" => {
             let code = w["code"].as_str().unwrap_or("");
